@@ -221,13 +221,13 @@ def generate(rng, prop, tier):
         sc['highdim'] = True
         return sc
     if mode == 'steer_sample':
-        sc['tkind'] = rng.choice(['pos', 'pos', 'sq', 'zeros', 'delta', 'sqdiff', 'gauge', 'gauge', 'orthpos', 'posscaled', 'posscaled'])
+        sc['tkind'] = rng.choice(['pos', 'pos', 'sq', 'zeros', 'delta', 'sqdiff', 'gauge', 'gauge', 'orthpos', 'posscaled', 'posscaled', 'overpos'])
         sc['prehistory'] = rng.random() < 0.3
         sc['unsert'] = rng.choice([0.0, 0.0, UNSERT])
         if sc['tkind'] in ('sq', 'sqdiff'):
             sc['r'] = rng.randint(1, 2)
     elif mode == 'steer_square':
-        sc['tkind'] = rng.choice(['normal', 'normal', 'zeros', 'scaled', 'nearorth', 'nearorth'])
+        sc['tkind'] = rng.choice(['normal', 'normal', 'zeros', 'scaled', 'nearorth', 'nearorth', 'overranked', 'overranked'])
         sc['prehistory'] = rng.random() < 0.3
     elif mode == 'adversarial':
         sc['fn'] = rng.choice(['sample', 'sample', 'sample_square', 'sample_square_unique', 'sample_square_unique', 'sample_lhs', 'sample_lhs',
@@ -261,6 +261,10 @@ def generate(rng, prop, tier):
 def build_tensor(sc):
     n, r, kind = sc['n'], sc['r'], sc['tkind']
     g = gen(sc['tseed'] + 1)
+    if kind in ('overranked', 'overpos'):
+        # a rank profile with bonds larger than the neighbouring cores can carry (r_k > n_k * r_{k+1}), as un-rounded sums / products have
+        rr = [int(g.integers(1, 9)) for _ in range(len(n) - 1)]
+        return make_tt(n, rr, sc['tseed'], dist='pos' if kind == 'overpos' else 'normal')
     if kind == 'pos':
         return make_tt(n, r, sc['tseed'], dist='pos')
     if kind == 'posscaled':
